@@ -119,7 +119,7 @@ func main() {
 	distinct := map[string]bool{}
 	g := &vgen{r: rng, storage: interpreter.NewInMemoryStorage(nil, nil)}
 
-	nv, nt, nm := 1200, 600, 1500
+	nv, nt, nm := 900, 500, 1200
 	if *tier == "thorough" {
 		nv, nt, nm = 40000, 20000, 60000
 	}
